@@ -20,12 +20,13 @@ class Unsupported(Exception):
 
 
 class Outcome:
-    __slots__ = ('st', 'kind', 'val')
+    __slots__ = ('st', 'kind', 'val', 'frame')
 
     def __init__(self, st, kind, val=None):
         self.st = st
-        self.kind = kind  # 'ret' | 'panic' | 'diverge'
+        self.kind = kind  # 'ret' | 'panic' | 'diverge' | 'loop'
         self.val = val
+        self.frame = None
 
     def __repr__(self):
         return 'Outcome(%s, %r)' % (self.kind, self.val)
@@ -319,7 +320,7 @@ class Interp:
         for n, p in enumerate(path):
             if isinstance(p, tuple) and p[0] == 'idx':
                 if isinstance(v, Array):
-                    r, na = v.get(p[1])
+                    r, na = v.get(p[1], lambda a, b: self.may_alias(st, a, b))
                     if na is not v:
                         # lazily created element: store it back
                         self._store_at(st, loc, path[:n], na)
@@ -345,28 +346,44 @@ class Interp:
         if not path:
             st.mem[loc] = val
             return
-        st.mem[loc] = self._update(st.mem.get(loc), path, val)
+        st.mem[loc] = self._update(st.mem.get(loc), path, val, st)
 
-    def _update(self, v, path, val):
+    def may_alias(self, st, a, b):
+        """can two abstract indices denote the same element on this path?"""
+        from .values import may_alias as syntactic
+        if not syntactic(a, b):
+            return False
+        ea, eb = self.aff_of(st, a), self.aff_of(st, b)
+        if ea is not None and eb is not None:
+            d = ea.add(eb, -1).norm(a.w)
+            if d.is_const() and d.const != 0:
+                return False
+        ra, rb = self.rng_of(st, a), self.rng_of(st, b)
+        if ra and rb and (max(y for _, y in ra) < min(x for x, _ in rb) or max(y for _, y in rb) < min(x for x, _ in ra)):
+            return False
+        return True
+
+    def _update(self, v, path, val, st=None):
         if not path:
             return val
         p = path[0]
+        al = (lambda a, b: self.may_alias(st, a, b)) if st is not None else None
         if isinstance(p, tuple) and p[0] == 'idx':
             if isinstance(v, Array):
                 if len(path) == 1:
-                    return v.set(p[1], val)
-                cur, na = v.get(p[1])
+                    return v.set(p[1], val, al)
+                cur, na = v.get(p[1], al)
                 if cur is None:
                     raise Unsupported('update of possibly-aliased array element')
-                return na.set(p[1], self._update(cur, path[1:], val))
+                return na.set(p[1], self._update(cur, path[1:], val, st), al)
             raise Unsupported('index-update into %r' % (v,))
         if isinstance(v, (Struct, Enum, Closure)):
             cur = v.fields[p] if p < len(v.fields) else UNIT
-            return v.with_field(p, self._update(cur, path[1:], val))
+            return v.with_field(p, self._update(cur, path[1:], val, st))
         if v is None or isinstance(v, Opaque):
             # partially initialised aggregate (MIR may assign fields one by one)
             s = Struct('?', [])
-            return s.with_field(p, self._update(None, path[1:], val))
+            return s.with_field(p, self._update(None, path[1:], val, st))
         raise Unsupported('field-update %s into %r' % (p, v))
 
     def store(self, st, ref, val):
@@ -485,6 +502,11 @@ class Interp:
             return self.uneval_const(st, fr, c)
         if k == 'cother':
             t = c['ty']
+            m = re.match(r'Ty\(\w+, (\w+)/#\d+\)', c.get('dbg', ''))
+            if m:
+                if fr is not None and fr.consts and m.group(1) in fr.consts:
+                    return BV.const(ty_width(t) or 64, fr.consts[m.group(1)], ty_signed(t))
+                raise Unsupported('const generic parameter %s has no value' % m.group(1))
             if t['k'] == 'tuple' and not t['elems']:
                 return UNIT
             if 'ZeroSized' in c.get('dbg', ''):
@@ -581,6 +603,9 @@ class Interp:
                 for i, v in enumerate(lay['variants']):
                     if int(v['discr'], 16) & ((1 << (8 * lay['size'])) - 1) == d:
                         return Enum(t['name'], i, v['name'])
+            if lay is None and 0 < len(bs) <= 16:
+                # a foreign newtype around one scalar (e.g. core's Atomic<u64>)
+                return Struct(t['name'], [BV.const(8 * len(bs), int.from_bytes(bs, 'little'))])
         if k == 'tuple':
             if not t['elems']:
                 return UNIT
@@ -758,13 +783,11 @@ class Interp:
                 if a2 <= b2:
                     out.append((a2, b2))
             return out
-        if bv.has_top() and bv.aff is not None:
-            alo, ahi = self.aff_range(st, bv.aff)
+        aff = bv.aff if bv.has_top() else (bv.get_aff() if st.rng else None)
+        if aff is not None and aff.terms:
+            alo, ahi = self.aff_range(st, aff)
             if alo >= 0 and ahi < (1 << bv.w):
                 lo, hi = max(lo, alo), min(hi, ahi)
-            elif bv.nw is not None and st.facts.get(bv.nw) == 0:
-                # the operation is known not to have wrapped on this path
-                lo, hi = max(lo, alo, 0), min(hi, ahi, (1 << bv.w) - 1)
         if lo > hi:
             return []
         return [(lo, hi)]
@@ -849,6 +872,25 @@ class Interp:
             return None
         a = bv.get_aff()
         return self.expand_aff(st, a) if a is not None else None
+
+    def aff_equal(self, st, a, b, w=64):
+        """are two affine forms equal modulo 2^w on this path? Atoms (s, 0, k) that cover the whole symbol (its range
+        is below 2^k) are identified with each other."""
+        if a is None or b is None:
+            return False
+
+        def canon(x):
+            x = self.expand_aff(st, x)
+            t = {}
+            for (sym, lo, hi), c in x.terms.items():
+                key = (sym, lo, hi)
+                if lo == 0:
+                    r = st.rng.get(sym)
+                    if hi >= 64 or (r and max(y for _, y in r) < (1 << hi)):
+                        key = (sym, 0, -1)
+                t[key] = t.get(key, 0) + c
+            return Aff(t, x.const).norm(w)
+        return canon(a) == canon(b)
 
     def expand_aff(self, st, aff, depth=0):
         if depth > 6:
@@ -1290,11 +1332,15 @@ class Interp:
             self.sub = sub
             self.consts = consts
 
-    def run(self, name, args, st=None, sub=None, consts=None):
+    def run(self, name, args, st=None, sub=None, consts=None, keep_locals=False):
         f = self.fn.get(name)
         if f is None:
             raise Unsupported('no such function ' + name)
-        return self.run_fn(f, args, st if st is not None else State(), sub, consts)
+        outs = self.run_fn(f, args, st if st is not None else State(), sub, consts, keep_locals=keep_locals)
+        if keep_locals:
+            for o in outs:
+                o.frame = self.last_top_frame
+        return outs
 
     def run_fn(self, f, args, st, sub=None, consts=None, keep_locals=False):
         self.depth += 1
@@ -1303,6 +1349,8 @@ class Interp:
             raise Unsupported('inlining depth exceeded at ' + f['name'])
         fid = next(self.counter)
         fr = Interp.Frame(fid, f, sub or {}, consts)
+        if self.depth == 1:
+            self.last_top_frame = fid
         if len(args) != f['argc']:
             self.depth -= 1
             raise Unsupported('arity mismatch calling %s: %d args for %d params' % (f['name'], len(args), f['argc']))
@@ -1391,17 +1439,19 @@ class Interp:
     def havoc_loop(self, fr, st, hdr, assigned):
         """widen at a loop header: every local assigned in the loop body gets a fresh symbolic value"""
         n = next(self.counter)
+        before = {}
         for l in sorted(assigned):
             loc = ('L', fr.id, l)
             if l == 0 or loc not in st.mem:
                 # not yet initialised at the header: a temporary of the body
                 continue
+            before[l] = st.mem[loc]
             t = self.subst_ty(fr.f['locals'][l], fr.sub)
             try:
                 st.mem[loc] = self.sym_value(t, 'loop%d._%d' % (n, l), st)
             except Unsupported:
                 st.mem[loc] = Opaque('loop%d._%d' % (n, l))
-        st.events.append(('loop-head', fr.f['name'], hdr, n))
+        st.events.append(('loop-head', fr.f['name'], hdr, n, before))
 
     def exec_block(self, fr, bi, st, visiting):
         f = fr.f
@@ -1507,6 +1557,9 @@ class Interp:
         xr = None
         if name is not None:
             xr = st.rng.get(name) or [(0, (1 << 64) - 1)]
+            # interval reasoning on the switch needs d == sym >> shift, i.e. no symbol bits above the tested field
+            if shift is None or shift < 0 or (shift + width < 64 and max(y for _, y in xr) >= (1 << (shift + width))):
+                name = None
         taken = []
         for val, tgt in targets:
             if any(b in (0, 1) and b != (val >> i) & 1 for i, b in enumerate(d.bits)):
